@@ -43,6 +43,11 @@ type obs struct {
 
 func runCase(run *vh.Run, idx int, c Case) *obs {
 	ob := &obs{idx: idx, c: c}
+	if c.NumSeed != 0 {
+		numbersCase(run, idx, c)
+		run.Count(fmt.Sprintf("numbers|%d", c.NumSeed), false)
+		return ob
+	}
 	w := fedgen.NewWorld(c.Seed)
 	text := c.text()
 	key := js(c.Services) + "|" + js(c.Selector) + "|" + text
@@ -447,6 +452,16 @@ func main() {
 		}
 		for i := 0; i < o.N; i++ {
 			cases = append(cases, genCase(r.Fork()))
+		}
+		// numeric extremes through the gateway, compared textually (numbers.go); after the generated cases, so that
+		// their indices and random streams stay what they were
+		nr := vh.NewRng(o.Seed ^ 0x6e756d)
+		nn := 8
+		if o.Tier == "thorough" {
+			nn = 200
+		}
+		for i := 0; i < nn; i++ {
+			cases = append(cases, Case{Origin: "numbers", NumSeed: uint64(nr.Intn(1<<30)) + 1})
 		}
 	}
 	var all []*obs
